@@ -83,6 +83,7 @@ type Case struct {
 	Text   string `json:"text,omitempty"`    // informational: the input as text when it is printable
 	How    string `json:"how,omitempty"`     // informational: how the generator built it
 	NoSkip bool   `json:"no_skip,omitempty"` // witness of a known finding: do not apply the known-family filters
+	Recipe string `json:"recipe,omitempty"`  // large structured input: rebuilt by buildLarge instead of being stored as hex
 }
 
 func newCase(family string, data []byte, how string) Case {
@@ -104,10 +105,21 @@ func printable(b []byte) bool {
 	return true
 }
 
-func (c Case) data() ([]byte, error) { return hex.DecodeString(c.Hex) }
+func (c Case) data() ([]byte, error) {
+	if c.Recipe != "" {
+		_, d, err := buildLarge(c.Recipe)
+		return d, err
+	}
+	return hex.DecodeString(c.Hex)
+}
 
 // key is the canonical rendering used for counting distinct cases.
-func (c Case) key() string { return c.Family + ":" + c.Hex }
+func (c Case) key() string {
+	if c.Recipe != "" {
+		return c.Family + ":" + c.Recipe
+	}
+	return c.Family + ":" + c.Hex
+}
 
 // ---------------------------------------------------------------- in-flight file
 
@@ -323,15 +335,56 @@ func allocNow() uint64 {
 	return allocSample[0].Value.Uint64()
 }
 
+// privateCopy gives every call its own copy of the input with 16 bytes of spare capacity
+// filled with a sentinel; inputIntact checks after the call that the decoder has treated its
+// argument's VALUE (the bytes within len) as read-only (round L4); a write into the spare capacity
+// is only counted (layout note). The exception are the SQL scanners, which hex-decode text input in
+// place (flagged inPlaceHex, counted): the driver owns that memory.
+func privateCopy(data []byte) []byte {
+	buf := make([]byte, len(data), len(data)+16)
+	copy(buf, data)
+	spare := buf[len(data):cap(buf)]
+	for i := range spare {
+		spare[i] = 0xA5
+	}
+	return buf
+}
+
+func looksHex(d []byte) bool {
+	return len(d) >= 2 && (d[0] == '\\' && d[1] == 'x' || d[0] == '0' && (d[1] == '0' || d[1] == '1'))
+}
+
+func inputIntact(t *target, data, buf []byte) string {
+	for _, x := range buf[len(data):cap(buf)] {
+		if x != 0xA5 {
+			// a write into the spare capacity changes no value the caller can reach: a layout note, not a failure
+			stats.Class("layout-note:spare-capacity-of-input-written:" + t.name)
+			break
+		}
+	}
+	if !bytes.Equal(buf[:len(data)], data) {
+		if t.inPlaceHex && (looksHex(data) || len(data) >= 6 && looksHex(data[4:])) {
+			stats.Class("layout-note:scanner-hex-decoded-in-place")
+			return ""
+		}
+		return "the decoder modified its input bytes"
+	}
+	return ""
+}
+
 // callScreened runs one target under the panic guard and the watchdog and returns the
 // screened allocation delta.
 func callScreened(t *target, data []byte) (res result, alloc uint64, err error) {
-	buf := append(make([]byte, 0, len(data)), data...)
+	buf := privateCopy(data)
 	a := allocNow()
 	arm()
-	err = stats.Guard(func() error { res = t.run(buf); return nil })
+	err = stats.Guard(func() error { res = t.run(buf[: len(data) : len(data)+16]); return nil })
 	disarm()
-	return res, allocNow() - a, err
+	alloc = allocNow() - a
+	if err == nil && res.extra == "" {
+		res.extra = inputIntact(t, data, buf)
+	}
+	return res, alloc, err
 }
 
 // ---------------------------------------------------------------- targets
@@ -348,10 +401,11 @@ type result struct {
 }
 
 type target struct {
-	name   string
-	family string
-	group  string // key into limits
-	run    func(data []byte) result
+	name       string
+	family     string
+	group      string // key into limits
+	run        func(data []byte) result
+	inPlaceHex bool // SQL scanners hex-decode text input in place
 	// skip reports that the input belongs to the family of a known finding for this target.
 	skip func(data []byte) string
 }
@@ -612,7 +666,13 @@ func buildTargets() []target {
 	return ts
 }
 
-var allTargets = buildTargets()
+var allTargets = func() []target {
+	ts := buildTargets()
+	for i := range ts {
+		ts[i].inPlaceHex = strings.Contains(ts[i].name, "Scanner")
+	}
+	return ts
+}()
 
 func targetsOf(family string) []target {
 	var out []target
@@ -661,10 +721,13 @@ func callMeasured(t *target, data []byte) (res result, alloc uint64, err error) 
 
 // callPlain is callMeasured without the two ReadMemStats (sampled enumerations).
 func callPlain(t *target, data []byte) (res result, err error) {
-	buf := append(make([]byte, 0, len(data)), data...)
+	buf := privateCopy(data)
 	arm()
-	err = stats.Guard(func() error { res = t.run(buf); return nil })
+	err = stats.Guard(func() error { res = t.run(buf[: len(data) : len(data)+16]); return nil })
 	disarm()
+	if err == nil && res.extra == "" {
+		res.extra = inputIntact(t, data, buf)
+	}
 	return res, err
 }
 
@@ -672,12 +735,29 @@ func callPlain(t *target, data []byte) (res result, err error) {
 // of the bound does not already cover the observed allocation.
 func allocBound(t *target, data []byte, observed uint64) uint64 {
 	l := limitOf(t)
-	b := l.bound(uint64(len(data)))
+	n := uint64(len(data))
+	if n > MaxInput {
+		// size ladder: structured flat inputs, judged with the linear part only
+		l.Q = 0
+	}
+	b := l.bound(n)
 	if l.E != 0 && (observed+screenSlack > b || 2*observed > b) {
-		exp, _ := gunzip(data)
-		b += l.E * uint64(len(exp))
+		b += l.E * expandedLen(data)
 	}
 	return b
+}
+
+// expandedLen: what ONE deflate layer can expand to. The harness's own decompression of the
+// outermost gzip layer, capped by the format's limit of 1032 output bytes per input byte (+ 64 KiB):
+// the allocation bound of the gzip entry point is therefore at most
+// A*len + E*(1032*len + 64 KiB) + 1 MiB whatever the stream contains (nested gzip layers included).
+func expandedLen(data []byte) uint64 {
+	exp, _ := gunzip(data)
+	e := uint64(len(exp))
+	if lim := 1032*uint64(len(data)) + 64<<10; e > lim {
+		e = lim
+	}
+	return e
 }
 
 func short(data []byte) string {
@@ -768,8 +848,12 @@ func checkData(family string, data []byte, o evalOpts) (outcome, error) {
 					}
 				}
 				if min > bound {
+					l := limitOf(t)
+					if len(data) > MaxInput {
+						l.Q = 0 // size ladder: linear part only
+					}
 					return out, fmt.Errorf("%s(%s): allocated %d bytes for a %d-byte input; bound %s = %d",
-						t.name, short(data), min, len(data), limitOf(t).formula(), bound)
+						t.name, short(data), min, len(data), l.formula(), bound)
 				}
 			}
 		}
